@@ -9,6 +9,7 @@
 Exit codes of `run`: 0 = property held on everything explored (KNOWN-FINDING lines possible),
 1 = at least one `VIOLATION property=<id> replay=<path>` line, 2 = infrastructure problem / inconclusive.
 """
+import re
 import fcntl
 import glob
 import hashlib
@@ -198,7 +199,7 @@ def replay_case(binary, path, rundir, runs=None, timeout=600):
             k = line.split("key=", 1)[1].split(" ", 1)[0]
             keys.append((k, line))
     done = any(l.startswith("VF-REPLAY-DONE") for l in out.splitlines())
-    crashed = (not done) and ("panic:" in out or "fatal error:" in out)
+    crashed = (not done) and ("panic:" in out or "fatal error:" in out or "VF-STALL-LOCK:" in out)
     return keys, done, crashed, out
 
 
@@ -425,7 +426,20 @@ def cmd_run(prop, tier):
             violations.append((rp, cf["violations"][0]["message"]))
         elif "VF-STALL:" in out:
             i = out.index("VF-STALL:")
-            infra.append("%s shard %d: a synctest bubble stalled in real time (inconclusive)\n%s" % (test, s, out[i:i + 2500]))
+            m = re.search(r"VF-STALL-LOCK: (\S+)", out)
+            if m and part.get("stall_is_violation") and os.path.exists(inflight):
+                # this part's harness holds no lock across virtual time, so a call that waits for a lock for minutes
+                # of real time waits for a lock that is never released
+                cf = json.load(open(inflight))
+                key = "%s/stalled-on-lock:%s" % (prop, m.group(1))
+                cf["violations"] = [{"key": key, "message": "a library call has been waiting for a lock for minutes of real time (the lock is never released): %s" % m.group(1), "step": -1}]
+                cf["crash_output_tail"] = out[i:i + 3000]
+                if key in known_keys:
+                    continue
+                rp = save_replay(prop, obj=cf)
+                violations.append((rp, "key=%s %s" % (key, cf["violations"][0]["message"])))
+            else:
+                infra.append("%s shard %d: a synctest bubble stalled in real time (inconclusive)\n%s" % (test, s, out[i:i + 2500]))
         elif rc == -9 or "panic: test timed out" in out:
             infra.append("%s shard %d: timed out (budget hit => inconclusive)\n%s" % (test, s, out[-1500:]))
         else:
